@@ -186,7 +186,14 @@ func c11Case(c *ctxT, r *gen.R, kind askWorldKind) {
 	var mu sync.Mutex
 	handlerSaw := map[uint32]string{} // request id -> "src|ok" as the handler saw it
 	reqOf := map[uint32][]byte{}
+	deaf := -1 // a node that has the swarm open but never serves: asks to it park until it is closed
+	if r.Intn(4) == 0 {
+		deaf = r.Intn(nNodes)
+	}
 	for si, nd := range nodes {
+		if si == deaf {
+			continue
+		}
 		for w := 0; w < 2; w++ { // two serving goroutines per node
 			si, nd := si, nd
 			swg.Add(1)
@@ -243,6 +250,9 @@ func c11Case(c *ctxT, r *gen.R, kind askWorldKind) {
 	if r.Intn(4) == 0 {
 		closeVictim = r.Intn(nNodes)
 	}
+	if deaf >= 0 {
+		closeVictim = deaf
+	}
 	var awg sync.WaitGroup
 	crossing := strings.Contains(kind.name, "mbapp") // every node asks at the same moment: equal counters, equal origin times
 	var barrier chan struct{}
@@ -276,6 +286,9 @@ func c11Case(c *ctxT, r *gen.R, kind askWorldKind) {
 		case 3:
 			rec.buf = want + r.Intn(50)
 		}
+		if rec.to == deaf {
+			rec.deadlineMs = 300
+		}
 		recs[i] = rec
 		req := c11Request(rec.id, rec.want, rec.flags, gen.Pick(r, []int{0, 3, 40, 200}))
 		mu.Lock()
@@ -307,12 +320,31 @@ func c11Case(c *ctxT, r *gen.R, kind askWorldKind) {
 	if barrier != nil {
 		close(barrier)
 	}
-	awg.Wait()
+	// an Ask that has not returned long after its deadline is recorded as such and abandoned
+	allDone := make(chan struct{})
+	go func() { awg.Wait(); close(allDone) }()
+	hung := false
+	select {
+	case <-allDone:
+	case <-time.After(6 * time.Second):
+		hung = true
+	}
 	cancel()
 	for _, nd := range nodes {
 		nd.closeFn()
 	}
-	swg.Wait()
+	if hung {
+		select {
+		case <-allDone:
+		case <-time.After(2 * time.Second):
+		}
+	}
+	sdone := make(chan struct{})
+	go func() { swg.Wait(); close(sdone) }()
+	select {
+	case <-sdone:
+	case <-time.After(3 * time.Second):
+	}
 	// one record per ask
 	var obs []sx.V
 	for _, rec := range recs {
@@ -354,6 +386,10 @@ func c11Case(c *ctxT, r *gen.R, kind askWorldKind) {
 			}
 		}
 		late := 0
+		if hung && rec.elapsed == 0 && rec.err == nil && rec.got == nil && rec.n == 0 {
+			late = 1
+			rec.err = context.DeadlineExceeded
+		}
 		if rec.elapsed > time.Duration(rec.deadlineMs)*time.Millisecond+700*time.Millisecond {
 			late = 1
 		}
